@@ -13,7 +13,7 @@ import (
 // number and its line beginning must treat the byte AT the position alike, or the
 // reported line and the quoted line belong to different lines.
 func RuleSB1(c *Ctx) {
-	sc := c.Run.Begin("SB1", "sibling agreement: the walk-back loops that compute the line number and the line beginning of an error position (same signature, same loop shape) test the same conditions on the current byte, in particular whether the byte at the position itself counts as a line break", 2)
+	sc := c.Run.Begin("SB1", "sibling agreement: the walk-back loops that compute the line number and the line beginning of an error position (same signature, same loop shape) test the same conditions on the current byte, in particular whether the byte at the position itself counts as a line break (a contradiction rule: it decides nothing when the functions are not written as sibling loops)", 0)
 	defer sc.End()
 	pk := c.P.Pkg("jerr")
 	if pk == nil {
@@ -91,7 +91,9 @@ func RuleSB1(c *Ctx) {
 		ws = append(ws, walker{fd, conds})
 	})
 	if len(ws) < 2 {
-		sc.Undecided("walkers", "-", fmt.Sprintf("found %d walk-back loops in package jerr, expected the line-number and line-beginning pair", len(ws)))
+		// not written as sibling loops (any more): nothing to contradict; the line arithmetic
+		// itself is value-level and is not decided by this family of technique
+		sc.Info("walkers", "-", fmt.Sprintf("found %d walk-back loop(s) in package jerr: no sibling pair to cross-check", len(ws)))
 		return
 	}
 	ref := strings.Join(ws[0].conds, " ; ")
